@@ -227,7 +227,15 @@ func (t *BalTable) BalTableReload(gslbConfs gslb_conf.GslbConf,
 		}
 
 		// update balance
-		if err := bal.Reload(gslbConf); err != nil {
+		// Note: if backend conf exists, reload gslb conf and backends in one step,
+		// in-flight request should not see new sub clusters without backends
+		var err error
+		if backendConf, ok1 := (*backendConfs.Config)[clusterName]; ok1 {
+			err = bal.ReloadAll(gslbConf, backendConf)
+		} else {
+			err = bal.Reload(gslbConf)
+		}
+		if err != nil {
 			log.Logger.Error("BalTableReload():err[%s] in bal.Reload() for %s",
 				err.Error(), clusterName)
 			fails = append(fails, clusterName)
